@@ -269,4 +269,41 @@ def repairedSteps : List MStep := [
   /- 28 -/ .ret (.reg 2)
 ]
 
+/-! ### vocabulary of the linearizability statement -/
+
+def Ev.tid : Ev → Tid
+  | .inv t | .acq t | .rel t => t
+  | .res t _ => t
+
+/-- in a newest-first list, `x` lies strictly behind (= is older than) an occurrence of `y` -/
+def Older {α : Type} (l : List α) (x y : α) : Prop := ∃ l1 l2, l = l1 ++ y :: l2 ∧ x ∈ l2
+
+/-- pages after the grows of `order` (newest first) have been applied one after the other to `p0` -/
+def replay (cfg : Cfg) (p0 : Nat) : List Tid → Nat
+  | [] => p0
+  | t :: older => (specGrow cfg.imm (replay cfg p0 older) (cfg.arg t)).2
+
+/-- the value the specification returns to `t` when it runs right after `older` -/
+def retOf (cfg : Cfg) (p0 : Nat) (older : List Tid) (t : Tid) : Nat :=
+  (specGrow cfg.imm (replay cfg p0 older) (cfg.arg t)).1
+
+/-- alone, the operation behaves as the specification of memory.grow says (any start state) -/
+def SeqCorrect (imm : Imm) (prog : List MStep) (delta : Nat) : Prop :=
+  ∀ m : Mem, m.pages ≤ imm.maxPages →
+    ∃ m', Final imm prog m 0 (initRegs delta) (m', (specGrow imm m.pages delta).1) ∧
+      m'.pages = (specGrow imm m.pages delta).2 ∧
+      (m' = m ∨ m'.size = m'.pages * 65536 % 4294967296)
+
+/-- `size` is what wasmMemoryAllocate stored, or `pages * 65536` in `U32` arithmetic -/
+def SizeInv (m0 m : Mem) : Prop := m.size = m0.size ∨ m.size = m.pages * 65536 % 4294967296
+
+/-- hypotheses on a configuration: a shared memory; every grow obeys the lock discipline and is
+    sequentially correct; every other operation only reads -/
+structure WF (cfg : Cfg) (m0 : Mem) : Prop where
+  shared : cfg.imm.shared = true
+  init_le : m0.pages ≤ cfg.imm.maxPages
+  disc : ∀ t, cfg.isGrow t = true → ReadsUnderLock (cfg.prog t) = true
+  seq : ∀ t, cfg.isGrow t = true → SeqCorrect cfg.imm (cfg.prog t) (cfg.arg t)
+  reader : ∀ t, cfg.isGrow t = false → ReadOnly (cfg.prog t) = true
+
 end W2c2Verif.Model.Grow
